@@ -22,7 +22,7 @@ from .c09 import oracle, pairs
 PID = "C18"
 VALUES = (None, 0, "")
 DECOS = ("plain", "guarded-parallel", "internal", "internal-actions", "multi-event",
-         "event-objects", "attribute-events")
+         "event-objects", "attribute-events", "property-guards")
 
 
 def strip(x):
@@ -81,6 +81,17 @@ def make(n, edges, init, finals, deco, asyn=False, ids="s"):
         elif deco == "event-objects":
             st[a].to(st[b], event=[ns["e"], ns["f"]] if k % 2 else ns["e"])
             exp_edges[(SID[a], SID[b], "e f" if k % 2 else "e", "")] += 1
+        elif deco == "property-guards":
+            # guards given as property objects of the class, passed by reference
+            if "ready" not in ns:
+                def ready(self):
+                    return True
+
+                def locked(self):
+                    return False
+                ns["ready"], ns["locked"] = property(ready), property(locked)
+            st[a].to(st[b], event="e", cond=ns["ready"], unless=ns["locked"])
+            exp_edges[(SID[a], SID[b], "e", "ready, !locked")] += 1
         elif deco == "attribute-events":
             # events named by the class attribute their transitions are assigned to; every
             # second edge shares its attribute with the previous one (`|`)
